@@ -2,7 +2,7 @@
 import ast
 
 from ..model import AnalysisError, dotted, unparse
-from ..util import POS, U, enum_paths, walk_no_nested, is_yield_call
+from ..util import FACTS, has_fact, resolved_text, sym_env, sym_resolve, POS, U, enum_paths, walk_no_nested, is_yield_call
 from ..paths import call_attr, call_name
 from .c03 import facts
 from . import c04, c05
@@ -40,7 +40,8 @@ def r1_pending(ctx):
       if keep:
         ctx.ob('C06.R1', t, 'leave_pending: the caller takes over the pending mark', not cw, 'continuation registered although the caller keeps the mark', why, nontrivial=False)
       else:
-        ok = len(cw) == 1 and isinstance(cw[0].args[0], ast.Lambda) and 'self._pending_endpoints.discard(' in U(cw[0].args[0].body)
+        ok = len(cw) == 1 and cw[0].args and ((isinstance(cw[0].args[0], ast.Lambda) and 'self._pending_endpoints.discard(' in U(cw[0].args[0].body)) or
+                                              (isinstance(cw[0].args[0], ast.Name) and cw[0].args[0].id in t.nested and 'self._pending_endpoints.discard(' in U(t.nested[cw[0].args[0].id].node)))
         ctx.ob('C06.R1', t, 'the pending mark is discarded when the new node finished opening', ok, 'continuation: %s' % [U(c) for c in cw], why)
       r = [e for e in ev if e.kind == 'ret']
       ctx.ob('C06.R1', t, 'expansion returns (open result, endpoint)', bool(r) and isinstance(r[-1].node.value, ast.Tuple) and len(r[-1].node.value.elts) == 2 and U(r[-1].node.value.elts[0]) == 'added_node',
@@ -78,27 +79,27 @@ def r2(ctx):
   adj = prog.func(A, 'ApertureBalancerSink._AdjustAperture')
   why = ('load-driven growth never takes the active set beyond max_size and contraction never leaves fewer than min(min_size, members) active: the '
          'size comparisons must be strict and every guard must dominate the resize')
-  env = {}
-  for st in walk_no_nested(adj.node):
-    if isinstance(st, ast.Assign) and isinstance(st.targets[0], ast.Name):
-      env.setdefault(U(st.targets[0]), []).append(U(st.value).replace(' ', ''))
-  size = [k for k, v in env.items() if v == ['self._size']]
-  sz = size[0] if size else 'self._size'
   n_e = n_c = 0
+  LOAD = 'self._ema.Update(self._time.Sample(),self._total)/self._size'
   for ev, ex in enum_paths(ctx, adj):
-    fs = facts(ev)
-    exp = [e for e in ev if e.kind == 'call' and U(e.node.func) == 'self._TryExpandAperture']
-    con = [e for e in ev if e.kind == 'call' and U(e.node.func) == 'self._ContractAperture']
+    exp = [i for i, e in enumerate(ev) if e.kind == 'call' and U(e.node.func) == 'self._TryExpandAperture']
+    con = [i for i, e in enumerate(ev) if e.kind == 'call' and U(e.node.func) == 'self._ContractAperture']
+
+    def H(i, text, truth=True):
+      return has_fact(ev, i, text, truth)
     if exp:
       n_e += 1
-      ok = (('aperture_load>=self._max_load', True) in fs and ('self._idle_endpoints', True) in fs and
-            (('%s<self._max_size' % sz, True) in fs or ('self._max_size>%s' % sz, True) in fs) and len(exp) == 1 and not con)
-      ctx.ob('C06.R2', adj, 'expansion dominated by load >= max_load, idle members exist, size < max_size', ok, 'expansion under facts %s' % fs, why)
+      i = exp[0]
+      over = H(i, 'aperture_load >= self._max_load') or H(i, LOAD + ' >= self._max_load') or H(i, 'self._max_load >= self._max_load')
+      ok = over and H(i, 'self._idle_endpoints') and (H(i, 'aperture_size < self._max_size') or H(i, 'self._size < self._max_size')) and len(exp) == 1 and not con
+      ctx.ob('C06.R2', adj, 'expansion dominated by load >= max_load, idle members exist, size < max_size', ok, 'expansion under facts %s' % sorted(set(FACTS(ev[:i])))[:12], why)
     elif con:
       n_c += 1
-      ok = (('aperture_load<=self._min_load', True) in fs and (('%s>self._min_size' % sz, True) in fs or ('self._min_size<%s' % sz, True) in fs)
-            and len(con) == 1 and not con[0].node.args and not con[0].node.keywords)
-      ctx.ob('C06.R2', adj, 'contraction dominated by load <= min_load and size > min_size, never forced', ok, 'contraction under facts %s' % fs, why)
+      i = con[0]
+      under = H(i, 'aperture_load <= self._min_load') or H(i, LOAD + ' <= self._min_load') or H(i, 'self._max_load <= self._min_load')
+      ok = under and (H(i, 'aperture_size > self._min_size') or H(i, 'self._size > self._min_size')) and len(con) == 1 \
+        and not ev[i].node.args and not ev[i].node.keywords
+      ctx.ob('C06.R2', adj, 'contraction dominated by load <= min_load and size > min_size, never forced', ok, 'contraction under facts %s' % sorted(set(FACTS(ev[:i])))[:12], why)
   ctx.floor('C06.R2', 'expansion paths', n_e, 1)
   ctx.floor('C06.R2', 'contraction paths', n_c, 1)
   c = prog.func(A, 'ApertureBalancerSink._ContractAperture')
@@ -147,23 +148,24 @@ def r3(ctx):
   adj = prog.func(A, 'ApertureBalancerSink._AdjustAperture')
   why = ('the aperture grows/shrinks on the smoothed number of outstanding requests per active member: the signal must be EMA(total) divided by the '
          'current active size')
-  t = U(adj.node).replace(' ', '')
-  avg = [st for st in walk_no_nested(adj.node) if isinstance(st, ast.Assign) and isinstance(st.value, ast.Call) and U(st.value.func) == 'self._ema.Update']
-  ok = len(avg) == 1 and [U(a).replace(' ', '') for a in avg[0].value.args] == ['self._time.Sample()', 'self._total']
-  ctx.ob('C06.R3', adj, 'avg = ema.Update(monotonic time, outstanding total)', ok, 'ema update is %s' % [U(a.value) for a in avg], why)
   seen = {}
   for ev, ex in enum_paths(ctx, adj):
-    fs = facts(ev)
-    ld = [e.node for e in ev if e.kind == 'stmt' and isinstance(e.node, ast.Assign) and U(e.node.targets[0]) == 'aperture_load']
-    zero = ('aperture_size==0', True) in fs or ('notaperture_size', True) in fs
+    # the value compared against the load band, resolved through the assignments on the path
+    cmpi = [(i, resolved_text(ev, i, e.node)) for i, e in enumerate(ev) if e.kind == 'cond']
+    cmpi = [(i, r) for i, r in cmpi if '_max_load' in r or '_min_load' in r]
+    if not cmpi:
+      continue
+    i, res = cmpi[0]
+    zero = has_fact(ev, i, 'aperture_size == 0') or has_fact(ev, i, 'self._size == 0')
     if zero:
-      seen['zero'] = seen.get('zero', True) and len(ld) == 1 and U(ld[0].value) == 'self._max_load'
+      seen['zero'] = seen.get('zero', True) and res.startswith(('self._max_load>=', 'self._max_load<='))
     else:
-      v = U(ld[0].value).replace(' ', '') if ld else None
-      seen['load'] = seen.get('load', True) and v in ('avg/aperture_size', 'avg/float(aperture_size)', 'float(avg)/aperture_size')
-  ctx.ob('C06.R3', adj, 'load = avg / active size; an empty aperture counts as max_load', seen == {'zero': True, 'load': True}, 'load signal: %s' % seen, why)
-  sz = [st for st in walk_no_nested(adj.node) if isinstance(st, ast.Assign) and U(st.targets[0]) == 'aperture_size']
-  ctx.ob('C06.R3', adj, 'active size = heap size', len(sz) == 1 and U(sz[0].value) == 'self._size', 'aperture_size is %s' % [U(s.value) for s in sz], why)
+      good = ('self._ema.Update(self._time.Sample(),self._total)/self._size' in res or 'self._ema.Update(self._time.Sample(),self._total)/float(self._size)' in res)
+      seen['load'] = seen.get('load', True) and good
+      if not good:
+        seen['load_text'] = res
+  ctx.ob('C06.R3', adj, 'load = EMA(monotonic time, outstanding total) / active size; an empty aperture counts as max_load', seen.get('zero') is True and seen.get('load') is True,
+         'load signal: %s' % seen, why)
   nd = prog.func(A, 'ApertureBalancerSink._OnNodeDown')
   seen = {}
   for ev, ex in enum_paths(ctx, nd):
